@@ -110,7 +110,7 @@ class SymArena:
         for i in range(self.N - 1, -1, -1): acc = z3.If(real1 == self.at[i] + 1, BV64(i + 1), acc)
         return acc
 
-    def value(self, spare=1, cap=None, embedded=False):
+    def value(self, spare=1, cap=None, embedded=False, free_inside=False):
         nodes = []
         emb = embedded and getattr(self, 'at', None)
         for i in range(self.N):
@@ -118,6 +118,17 @@ class SymArena:
             dd = S(z3.If(self.live(i), BV64(0), BV64(1)), 'isize')
             data = En('NodeData', dd, {0: (Opq(self.data[i]),), 1: (opt_usize(self.nf_some[i], self.nf_idx[i], REPR['nf_nonzero']),)})
             nodes.append(Agg('Node', links + [Agg('NodeStamp', (S(self.stamp[i], 'i16'),)), data]))
+        if emb and free_inside:
+            # mutator harnesses: every slot outside the component is live, the whole free list lies inside it
+            nodes = []
+            for i in range(self.N):
+                links = [opt_nodeid(self.some[L][i], self.to_real(self.idx[L][i]), self.lst[L][i]) for L in LINKS]
+                dd = S(z3.If(self.live(i), BV64(0), BV64(1)), 'isize')
+                data = En('NodeData', dd, {0: (Opq(self.data[i]),), 1: (opt_usize(self.nf_some[i], self.to_real(self.nf_idx[i] + 1) - 1, REPR['nf_nonzero']),)})
+                nodes.append(Agg('Node', links + [Agg('NodeStamp', (S(self.stamp[i], 'i16'),)), data]))
+            vec = VecV(S(self.vlen, 'usize'), S(z3.BitVec(self.pfx + 'vcap', 64), 'usize'), nodes, pos=list(self.at))
+            return Agg('Arena', (vec, opt_usize(self.ff_some, self.to_real(self.ff_idx + 1) - 1, REPR['free_ends_nonzero']),
+                                 opt_usize(self.lf_some, self.to_real(self.lf_idx + 1) - 1, REPR['free_ends_nonzero'])))
         if emb:
             # free-list ends are not modelled in embedded mode (read-only harnesses): unconstrained
             vec = VecV(S(self.vlen, 'usize'), S(z3.BitVec(self.pfx + 'vcap', 64), 'usize'), nodes, pos=list(self.at))
@@ -213,10 +224,17 @@ class SymArena:
 
 class View:
     """Uniform per-slot z3 view of an arena value (symbolic or concrete)."""
-    def __init__(self, arena_val):
+    def __init__(self, arena_val, unmap=None):
+        """unmap: the SymArena whose embedding (real positions) the value uses; the view is then over slot numbers 1..N"""
         vec = arena_val.f[0]
-        assert vec.len.conc(), 'symbolic vec len'
-        n = vec.len.v
+        if unmap is not None and vec.pos is not None:
+            n = len(vec.el)
+            ua1 = unmap.to_abstract                                   # 1-based
+            ua0 = lambda t: unmap.to_abstract(t + 1) - 1              # 0-based
+        else:
+            assert vec.len.conc(), 'symbolic vec len'
+            n = vec.len.v
+            ua1 = ua0 = (lambda t: t)
         self.N = n
         self.stamp = []; self.some = {L: [] for L in LINKS}; self.idx = {L: [] for L in LINKS}; self.lst = {L: [] for L in LINKS}
         self.is_data = []; self.data = []; self.nf_some = []; self.nf_idx = []
@@ -227,7 +245,7 @@ class View:
                 self.some[L].append(zb(S(o.d.v, 'isize')) == 1)
                 if 1 in o.pay:
                     nid = o.pay[1][0]
-                    self.idx[L].append(zb(nid.f[0].f[0])); self.lst[L].append(zb(nid.f[1].f[0]))
+                    self.idx[L].append(ua1(zb(nid.f[0].f[0]))); self.lst[L].append(zb(nid.f[1].f[0]))
                 else:
                     self.idx[L].append(BV64(0)); self.lst[L].append(BV16(0))
             self.stamp.append(zb(nd.f[5].f[0]))
@@ -238,12 +256,12 @@ class View:
             if 1 in d.pay:
                 nf = d.pay[1][0]
                 self.nf_some.append(zb(S(nf.d.v, 'isize')) == 1)
-                self.nf_idx.append(usize_of(nf.pay[1][0]) if 1 in nf.pay else BV64(0))
+                self.nf_idx.append(ua0(usize_of(nf.pay[1][0])) if 1 in nf.pay else BV64(0))
             else:
                 self.nf_some.append(z3.BoolVal(False)); self.nf_idx.append(BV64(0))
         ff, lf = arena_val.f[1], arena_val.f[2]
-        self.ff_some = zb(S(ff.d.v, 'isize')) == 1; self.ff_idx = usize_of(ff.pay[1][0]) if 1 in ff.pay else BV64(0)
-        self.lf_some = zb(S(lf.d.v, 'isize')) == 1; self.lf_idx = usize_of(lf.pay[1][0]) if 1 in lf.pay else BV64(0)
+        self.ff_some = zb(S(ff.d.v, 'isize')) == 1; self.ff_idx = ua0(usize_of(ff.pay[1][0])) if 1 in ff.pay else BV64(0)
+        self.lf_some = zb(S(lf.d.v, 'isize')) == 1; self.lf_idx = ua0(usize_of(lf.pay[1][0])) if 1 in lf.pay else BV64(0)
 
     @staticmethod
     def from_dict(d):
